@@ -13,7 +13,7 @@ import (
 func init() {
 	register(&Rule{ID: "C15.ROOT", Min: 1, Doc: "the path matched against `paths` globs is relative to the project root, not to the working directory", Run: runC15Root})
 	register(&Rule{ID: "C15.ABSJOIN", Min: 2, Doc: "a path is joined to the working directory only when it is not absolute", Run: runC15AbsJoin})
-	register(&Rule{ID: "C15.PURE", Min: 4, Doc: "filterErrors is an order-preserving filter without side effects", Run: runC15Pure})
+	register(&Rule{ID: "C15.PURE", Min: 5, Doc: "filterErrors is an order-preserving filter without side effects", Run: runC15Pure})
 	register(&Rule{ID: "C15.EXIT", Min: 5, Doc: "exit status table of Command.Main: 2 flag error, 0 help/version/no diagnostics, 3 fatal, 1 diagnostics", Run: runC15Exit})
 	register(&Rule{ID: "C15.PAT", Min: 2, Doc: "ignore patterns are compiled and applied one by one", Run: runC15Pat})
 }
@@ -233,7 +233,14 @@ func runC15Pure(c *Ctx) {
 	if m := own.mut[fn]; len(m) == 0 {
 		c.ok("(*Linter).filterErrors|no side effect", fn.Pos(), "mutates nothing outside its own locals (log primitives aside)")
 	} else {
-		c.bad("(*Linter).filterErrors|no side effect", fn.Pos(), "mutates "+m.String()+": filtering must not modify the diagnostics or shared state")
+		var at []string
+		for r := range m {
+			if pos, ok := own.mutWhy[fn][r]; ok {
+				at = append(at, p.Pos(pos))
+			}
+		}
+		sort.Strings(at)
+		c.bad("(*Linter).filterErrors|no side effect", fn.Pos(), "mutates "+m.String()+" (at "+strings.Join(at, ", ")+"; an append into a non-owned slice counts as a write to its backing array): filtering must not modify the diagnostics or shared state")
 	}
 	if o := own.out[fn]; len(o) == 0 {
 		c.ok("(*Linter).filterErrors|no output", fn.Pos(), "writes to no output stream")
